@@ -400,6 +400,38 @@ def run(ctx, anchors=None):
                          "operation than the one the next step executes (pending operations are missing from it)" % (f.name, astq.estr(e)[:40]))
     ctx.floor("R12.10", n1210, 1, "calls of the pane printer")
 
+    # ---- R12.11 the redeem script shown for a P2SH spend is what execution will take from the top of the stack after the
+    # (push-only) scriptSig: the value of its LAST operation, whatever that value is. The scans that remember "the last pushed
+    # value" (listing in main, pane in print_dualstack) therefore take it on every iteration: an assignment under a condition
+    # (seed C12-L: only non-empty pushes) lists a redeem script that never runs when the scriptSig ends in OP_0.
+    ctx.rule("R12.11", "the scans for the P2SH redeem script remember the value of every operation of the scriptSig, i.e. the last one")
+    n1211 = 0
+    for f in sorted(fb.funcs.values(), key=lambda f_: f_.id):
+        if f.body is None or not f.file.startswith(("functions.", "btcdeb.cpp", "instance.", "debugger/")):
+            continue
+        for lp in f.nodes():
+            if lp["k"] != "while" or lp.get("cond") is None:
+                continue
+            gets = [x for x in walk(lp["cond"]) if x.get("k") == "mcall" and x.get("n") == "GetOp" and len(x.get("args") or []) == 3]
+            if len(gets) != 1 or gets[0]["args"][2] is None or gets[0]["args"][2].get("k") != "ref" or gets[0]["args"][2].get("dk") != "local":
+                continue
+            v = gets[0]["args"][2]["d"]
+            takes = []
+            for x in walk(lp["body"]):
+                if x.get("k") == "opcall" and x.get("op") == "=" and len(x.get("args") or []) == 2 and all(a is not None and a.get("k") == "ref" for a in x["args"]) and x["args"][1].get("d") == v:
+                    takes.append(x)
+                elif x.get("k") == "assign" and x["lhs"].get("k") == "ref" and x["rhs"].get("k") == "ref" and x["rhs"].get("d") == v:
+                    takes.append(x)
+            for x in takes:
+                n1211 += 1
+                ctx.site()
+                conds = [a for a in f.ancestors(x) if a.get("k") in ("if", "cond", "switch", "while", "for", "do") and S.contains(lp["body"], a)]
+                conds += [a for a in f.ancestors(x) if a.get("k") == "bin" and a.get("op") in ("&&", "||") and S.contains(lp["body"], a)]
+                ctx.inst(not conds, "R12.11", "last-value-taken-unconditionally@" + f.name.split("(")[0], f.loc(x), "`%s` runs on every iteration of the scriptSig scan" % astq.estr(x)[:50],
+                         "%s takes the pushed value only under `%s`: when the last operation of the scriptSig does not satisfy it, the listed P2SH script is an earlier push, not the element execution uses as redeem script"
+                         % (f.name.split("(")[0], astq.estr(conds[0].get("cond") or conds[0])[:60] if conds else ""))
+    ctx.floor("R12.11", n1211, 1, "scans remembering the last pushed value of the scriptSig")
+
     # ---- R12.8 the numbered listing shows every operation in full (it is "the exact decoding"): a fixed-size buffer that
     # receives the hex rendering of a push must hold the largest legal push - 2 * MAX_SCRIPT_ELEMENT_SIZE digits - plus whatever
     # precedes it in that buffer and the terminator. (The two-column pane abbreviates long values on purpose; it is not judged.)
@@ -452,6 +484,7 @@ def run(ctx, anchors=None):
 
 
 MUTANTS = [
+    dict(name="listing-remembers-only-non-empty-pushes", file="btcdeb.cpp", find="    while (env->script.GetOp(it, opcode, vchPushValue)) { p2sh_script_payload = vchPushValue; ++count; }", replace="    while (env->script.GetOp(it, opcode, vchPushValue)) { if (!vchPushValue.empty()) p2sh_script_payload = vchPushValue; ++count; }", expect=["R12.11:last-value-taken-unconditionally@main"]),
     dict(name="pane-iterator-reused-for-the-redeem-script-scan", file="functions.cpp", find="            CScript::const_iterator it = env->script.begin();\n            opcodetype opcode;\n            valtype vchPushValue, p2sh_script_payload;", replace="            it = env->script.begin();\n            opcodetype opcode;\n            valtype vchPushValue, p2sh_script_payload;", expect=["R12.10:pane-from-program-counter@print_dualstack"]),
     dict(name="pane-lists-finished-commitment-steps", file="functions.cpp", find="        for (size_t k = tce->m_i; k < desc.size(); ++k) {", replace="        for (size_t k = 0; k < desc.size(); ++k) {", expect=["R12.9:commitment-section-from-pending-step"]),
     dict(name="listing-buffer-too-small", file="btcdeb.cpp", find="    char buf[16 + 2 * MAX_SCRIPT_ELEMENT_SIZE];", replace="    char buf[1024];", expect=["R12.8:listing-buffer-holds-a-maximal-push"]),
